@@ -256,6 +256,84 @@ def run_history(rng, counters, digests, samples, violations, known, nops, world_
         samples.append({"ops": ls.ops[:12], "n_ops": len(ls.ops), "followups": fups[:3], "removed_or_replaced": removed})
 
 
+def ref_named_task_case(rng, counters, violations):
+    """A FunctionTask / LinearKnob may be identified by a reference (e.g. a knob named after its source).
+    Assigning to that reference replaces the task it identifies, whatever that task writes: afterwards the
+    manager must be indistinguishable from a fresh one holding only the surviving definitions."""
+    import copy
+    import xdeps
+    import xdeps.tasks as T
+
+    def data():
+        return {"src": 1.0, "k": 2.0, "a": 0.5, "tar": [0.0, 0.0], "n": {"x": 1.0, "y": 2.0}, "out": 0.0}
+    m = xdeps.Manager()
+    d = data()
+    r = m.ref(d, "r")
+    r["out"] = r["a"] * 3 + r["n"]["y"]                       # an unrelated definition that must survive
+    which = rng.choice(["source", "unrelated", "nested", "own-target"])
+    idref = {"source": r["src"], "unrelated": r["k"], "nested": r["n"]["x"], "own-target": r["tar"][0]}[which]
+    kind = rng.choice(["knob", "ftask"])
+    if kind == "knob":
+        task = T.LinearKnob(idref, r["src"], [1.0, -2.0], [r["tar"][0], r["tar"][1]])
+    else:
+        def action():
+            r["tar"][1]._set_value(r["src"]._get_value() * 2 + r["a"]._get_value())
+        task = T.FunctionTask(idref, action, targets=r["tar"][1]._get_dependencies() | ({idref} if which == "own-target" else set()),
+                              dependencies=r["src"]._get_dependencies() | r["a"]._get_dependencies())
+    m.register(task)
+    assign = rng.choice(["expr", "value", "unregister"])
+    wit = {"case": "ref-named %s (%s), then %s" % (kind, which, assign)}
+    try:
+        if assign == "expr":
+            m.set_value(idref, r["a"] * 2 + 1)
+        elif assign == "value":
+            m.set_value(idref, 7.5)
+        else:
+            m.unregister(idref)
+    except Exception as exc:
+        violations.append(dict(wit, what="C03 %s raised %s: %s" % (wit["case"], type(exc).__name__, str(exc)[:200])))
+        return
+    counters["ref_named_task_cases"] = counters.get("ref_named_task_cases", 0) + 1
+    # fresh manager with the surviving definitions only
+    m2 = xdeps.Manager()
+    d2 = copy.deepcopy(d)
+    r2 = m2.ref(d2, "r")
+    m2.register(T.ExprTask(r2["out"], r2["a"] * 3 + r2["n"]["y"]))
+    idref2 = {"source": r2["src"], "unrelated": r2["k"], "nested": r2["n"]["x"], "own-target": r2["tar"][0]}[which]
+    if assign == "expr":
+        m2.register(T.ExprTask(idref2, r2["a"] * 2 + 1))
+    problems = []
+    bad = mgrmon.index_violations(m)
+    if bad:
+        problems.append("index supports inconsistent: %s" % bad[:3])
+    if str_supports(m) != str_supports(m2):
+        sa, sb = str_supports(m), str_supports(m2)
+        problems.append("index supports differ from the fresh manager: %s" % (
+            [(n_, k, sa[n_].get(k), sb[n_].get(k)) for n_ in sa for k in set(sa[n_]) | set(sb[n_]) if sa[n_].get(k) != sb[n_].get(k)][:3],))
+    if sorted(map(str, m.tasks)) != sorted(map(str, m2.tasks)):
+        problems.append("tasks %s, fresh manager %s" % (sorted(map(str, m.tasks)), sorted(map(str, m2.tasks))))
+    for who, mm in (("manager with the history", m), ("fresh manager", m2)):
+        try:
+            mm.verify()
+        except Exception as exc:
+            problems.append("verify() of the %s raised: %s" % (who, str(exc)[:120]))
+    if not problems:
+        for key, val in (("src", 5.0), ("a", 4.0), ("k", 3.0), ("src", 6.0), ("a", -1.0)):
+            out = []
+            for root in (r, r2):
+                try:
+                    root[key] = val
+                    out.append(None)
+                except Exception as exc:
+                    out.append(type(exc).__name__)
+            counters["twin_followups_compared"] = counters.get("twin_followups_compared", 0) + 1
+            if out[0] != out[1] or {k: canon(v) for k, v in d.items()} != {k: canon(v) for k, v in d2.items()}:
+                problems.append("after r[%r] = %r: %s / %s vs fresh %s" % (key, val, out, d, d2))
+                break
+    if problems:
+        violations.append(dict(wit, what="C03 %s: %s" % (wit["case"], "; ".join(problems[:3]))))
+
+
 def run_shard(spec):
     rng = random.Random("C03:%s:%s" % (spec["seed"], spec["shard"]))
     mgrmon.install_reach_counters()
@@ -271,6 +349,10 @@ def run_shard(spec):
         for name in ("F02-unregister-stale-rtasks",):
             run_history(rng, counters, digests, samples, violations, known, 0, (c01.witness_world(), c01.REGRESSIONS[name]))
             counters["regression_cases"] = counters.get("regression_cases", 0) + 1
+    for h in range(60 if not spec.get("replay") else 0):
+        if violations:
+            break
+        ref_named_task_case(rng, counters, violations)
     for h in range(spec["histories"]):
         mgrmon.set_shuffle_rng(random.Random(rng.random()) if rng.random() < 0.5 else None)
         run_history(rng, counters, digests, samples, violations, known, rng.randrange(6, 28))
